@@ -485,11 +485,22 @@ impl Monitor for C06 {
             ("siblings", tier.pick(2000000, 250000000)),
             ("sweep", tier.pick(20000, 2000000)),
             ("read", tier.pick(6000000, 600000000)),
+            ("corpus", tier.pick(400_000, 8_000_000)),
         ]
     }
 
     fn run_case(&mut self, engine: &str, idx: u64, rng: &mut Prng, rep: &mut Report) {
         match engine {
+            "corpus" => match gen::corpus::case(idx, rng) {
+                Some(case) => {
+                    rep.count("corpus_cases");
+                    self.starting_points(rep, &case);
+                    if case.start == Start::Ip {
+                        self.ip_siblings(rep, &case.bytes);
+                    }
+                }
+                None => rep.selfcheck_fail("corpus file missing".into()),
+            },
             "eth" => {
                 let mut o = GenOpts::hostile();
                 o.start = StartSel::Eth;
